@@ -4,7 +4,7 @@ set -u
 ID="$1"; PROP="$2"; TIER="${3:-quick}"
 cd /verif
 if [ -n "$(git -C /repo status --porcelain -- j1939)" ]; then echo "/repo not clean"; exit 2; fi
-git -C /repo apply "seeded/$ID/patch.diff" || exit 2
+git -C /repo apply "/verif/seeded/$ID/patch.diff" || exit 2
 cp evidence/$PROP.json /tmp/.ev.$PROP.$$ 2>/dev/null
 ./vcheck "$PROP" "$TIER" > /tmp/.seedrun.$$ 2>&1; RC=$?
 git -C /repo checkout -- j1939
